@@ -278,6 +278,10 @@ func init() {
 		})
 		return nil
 	})
+	regHarness("vWatchStore", func(m *Machine, fr *frame, a []Value) Value {
+		m.watches = append(m.watches, watch{field: a[0].(*Str).s, fn: a[1]})
+		return nil
+	})
 	regHarness("vJoinAll", func(m *Machine, fr *frame, a []Value) Value {
 		me := m.cur
 		m.blockUntil("vJoinAll", func() bool {
@@ -307,6 +311,10 @@ func init() {
 			return MkBV(64, uint64(int64(v)))
 		}
 		return a[1]
+	})
+	regHarness("vSchedPolicy", func(m *Machine, fr *frame, a []Value) Value {
+		m.schedHighFirst = m.concInt(a[0].(*Term), "vSchedPolicy") == 1
+		return nil
 	})
 	regHarness("vRaceCount", func(m *Machine, fr *frame, a []Value) Value { return MkBV(64, uint64(len(m.races))) })
 
